@@ -67,6 +67,34 @@ func c16LogLevel() zerolog.Level {
 // c16Runner executes one shape on the real code of an entry point.
 type c16Runner func(ctx context.Context, shape map[string]string) c16Res
 
+// c16EmitKey carries the scenario's event writer in the runner's context: entry points that consume
+// their input END TO END (decode, then use) log the intermediate spec actions Decoded{accepted} and
+// Use{use, outcome} with it, each AFTER the real call returned.
+type c16EmitKey struct{}
+
+func c16Emit(ctx context.Context, ev c16Line) {
+	if f, ok := ctx.Value(c16EmitKey{}).(func(c16Line)); ok {
+		f(ev)
+	}
+}
+
+func c16Decoded(ctx context.Context, accepted bool, detail string) {
+	c16Emit(ctx, c16Line{"ev": "Decoded", "accepted": accepted, "detail": c16Short(detail, 160)})
+}
+
+func c16Used(ctx context.Context, use string, r c16Res) {
+	c16Emit(ctx, c16Line{"ev": "Use", "use": use, "outcome": r.Outcome, "detail": c16Short(r.Detail, 160)})
+}
+
+// c16Terminal: the events that end a scenario (everything else is an intermediate step of it).
+func c16Terminal(ev interface{}) bool {
+	switch ev {
+	case "Outcome", "Undeliverable", "DecoderPanic", "Crash", "Stuck", "HarnessError":
+		return true
+	}
+	return false
+}
+
 var c16Runners = map[string]c16Runner{}
 
 func c16Register(ep string, r c16Runner) { c16Runners[ep] = r }
@@ -262,6 +290,11 @@ func c16Child(t *testing.T) {
 		}
 		done := make(chan result, 1)
 		ctx, cancel := context.WithCancel(context.Background())
+		scNo, scEp := sc.Sc, sc.Ep
+		ctx = context.WithValue(ctx, c16EmitKey{}, func(ev c16Line) {
+			ev["sc"], ev["ep"] = scNo, scEp
+			log.write(ev)
+		})
 		go func() {
 			defer func() {
 				if r := recover(); r != nil {
@@ -376,8 +409,10 @@ func c16RunLane(t *testing.T, dir string, lane string, scenarios []c16Scenario) 
 			case "Call":
 				pending = &lines[i]
 			default:
-				pending = nil
-				closed[c16Sc(l)] = true
+				if c16Terminal(l["ev"]) {
+					pending = nil
+					closed[c16Sc(l)] = true
+				}
 			}
 			all = append(all, l)
 		}
